@@ -61,6 +61,8 @@ def _adv_node(draw, depth, made):
         node = {"k": "Not", "c": children}
     else:
         node = {"k": kind, "c": children, "id": draw(st.sampled_from(IDS + [None, None, None, None]))}
+        if node["id"] is not None and draw(st.integers(0, 9)) == 0:
+            node["fix"] = draw(st.integers(0, 1))
         if kind == "AtLeast":
             node["v"] = draw(st.sampled_from([1, 1, 2, 11, 0, -1, -2]))
             node["s"] = draw(st.sampled_from([1, -1, None]))
@@ -94,6 +96,8 @@ def _ring(draw):
         node = {"k": draw(st.sampled_from(["All", "Any", "AtLeast"])), "id": nme, "c": ch}
         if node["k"] == "AtLeast":
             node["v"], node["s"] = 1, None
+        if draw(st.integers(0, 3)) == 0:
+            node["fix"] = draw(st.integers(0, 1))      # a rule whose own variable is pre-fixed still defines its id
         rules.append(node)
     # spread over branches: some rules wrapped one level deeper
     kids = []
